@@ -271,6 +271,7 @@ def run(ctx):
     # D12: scratch registers are chosen against ALL live compiler variables (shared with C06)
     _il10.import_module("rules.c06").compiler_var_scans_complete(db, rep, "D12-VAR-SCAN-COMPLETE")
     d13_wide_constant_uses_upper_half(db, rep)
+    d14_declared_alignment_after_head(db, rep)
     # a generated wrapper hands native code an uncleared stack executor: every counter the code reads must have been stored by it (shared with C03 D8)
     import emitstate as _es
     _names = {}
@@ -624,4 +625,62 @@ def d13_wide_constant_uses_upper_half(db, rep, rule="D13-WIDE-CONST-UPPER-HALF")
                       (fn, K, line, K), line=line)
     if n < 6:
         raise AnalysisBroken("only %d (loader, pattern) pairs evaluated" % n)
+    return n
+
+
+def d14_declared_alignment_after_head(db, rep, rule="D14-DECLARED-ALIGNMENT-AFTER-HEAD"):
+    """`.source 1 s1 align 32` promises that the caller passes s1 aligned.  The x86 back ends mark every array whose declared
+    alignment suits the register size as is_aligned (orc_x86_adjust_alignment) and the load/store rules then use aligned moves.
+    But when the array the loop is aligned on is NOT declared aligned, a head region first processes as many elements as it takes
+    to align that one array - and moves every other array by the same number of elements: their declared alignment no longer
+    holds in the main loop (nor inside the head, whose steps grow up to half a register).  In orc_x86_compile the head region
+    (the block entered for emit_region1) must therefore start by clearing is_aligned for the arrays other than the alignment
+    variable, before its first orc_x86_emit_loop; otherwise a valid call (s1 aligned as promised, d1 not) faults with #GP in JIT
+    mode while backup, emulation and the Orc-free build work."""
+    f = db.func("orc_x86_compile", "orcprogram-x86")
+    rep.saw(f)
+    heads = [x for x in f.walk() if x.k == "IfStmt" and x.c[0] is not None and "emit_region1" in unparse(x.c[0]) and x.c[1] is not None]
+    if not heads:
+        raise AnalysisBroken("orc_x86_compile: the head region (if (emit_region1)) was not found")
+    marks = [st for g in db.tu("orcprogram-x86").main_functions() for st in g.walk()
+             if st.k == "BinaryOperator" and st.op == "=" and (access_path(st.c[0]) or "").endswith(".is_aligned") and strip_casts(st.c[1]) is not None and strip_casts(st.c[1]).v == 1]
+    if not marks:
+        raise AnalysisBroken("no store of TRUE into vars[].is_aligned found: the premise of the rule (declared alignment is trusted) has moved")
+    # the other way to keep the promise: declared alignment is only ever trusted for the alignment variable itself
+    only_align_var = all("align_var" in unparse(st.c[0]) for st in marks)
+    n = 0
+    for h in heads:
+        if only_align_var:
+            n += 1
+            rep.ok(rule, where(f), "head-region@%s" % h.line, "declared alignment is trusted for the alignment variable only")
+            continue
+        loops_ = [c for c in h.c[1].walk() if c.k == "CallExpr" and c.name == "orc_x86_emit_loop"]
+        if not loops_:
+            continue
+        n += 1
+        first = min(loops_, key=lambda c: (c.line, c.id))
+        ok = False
+        for lp in h.c[1].walk():
+            if lp.k != "ForStmt" or lp.line > first.line:
+                continue
+            init, cond, inc, body = (lp.c + [None] * 4)[:4]
+            if body is None or cond is None:
+                continue
+            if any(c.id == first.id for c in body.walk()):
+                continue
+            iv = next((y.name for y in cond.walk() if y.k == "DeclRefExpr" and y.get("dk") == "local"), None)
+            for st in body.walk():
+                if st.k == "BinaryOperator" and st.op == "=" and (access_path(st.c[0]) or "").endswith(".is_aligned") and strip_casts(st.c[1]) is not None and strip_casts(st.c[1]).v == 0:
+                    l = strip_casts(st.c[0])
+                    sub = strip_casts(l.c[0]) if l is not None and l.k == "MemberExpr" else None
+                    idx = strip_casts(sub.c[1]) if sub is not None and sub.k == "ArraySubscriptExpr" else None
+                    if idx is not None and idx.k == "DeclRefExpr" and idx.name == iv and "ORC_VAR_S8" in unparse(cond) + str(db.enum("ORC_VAR_S8")) and f.dominates(cond, first):
+                        ok = True
+        rep.check(ok, rule, where(f), "head-region@%s" % h.line, "the head region clears the declared alignment of the arrays it moves",
+                  "orc_x86_compile emits the head region (line %s) without first clearing vars[i].is_aligned for the arrays other than the alignment variable: "
+                  "orc_x86_adjust_alignment marked them from their DECLARED alignment, the head moves them by the number of elements that aligns another "
+                  "array, and the main loop still uses aligned moves on them - `.dest 1 d1` / `.source 1 s1 align 32` faults with #GP for a valid call" % h.line,
+                  line=first.line)
+    if n < 1:
+        raise AnalysisBroken("orc_x86_compile: no orc_x86_emit_loop inside the head region")
     return n
